@@ -3,7 +3,7 @@ CONSTANTS
   Mode = "pool"
   Gen = "iter"
   Dev = {}
-  LastBy = "index"
+  LastBy = "identity"
   MaxLines = 5
   MaxDepth = 9
   MaxBlank = 0
